@@ -342,6 +342,7 @@ struct CaseResult {
     fired: BTreeMap<String, u64>,
     probes: BTreeMap<&'static str, u64>,
     sample: Option<Value>,
+    digest: String,
 }
 
 fn mk_violation(case: &Case, base: &Files, op: &OpSpec, plan: &FaultPlan, class: &str, detail: &str) -> Violation {
@@ -393,7 +394,7 @@ fn shrink_plan(sb: &Sandbox, base: &Files, op: &OpSpec, plan: &FaultPlan, class:
 }
 
 fn check_case(sb: &Sandbox, opts: &Opts, idx: usize, case: &Case, per_op: usize, enumerate: bool) -> CaseResult {
-    let mut r = CaseResult { violations: Vec::new(), runs: 0, fingerprints: Vec::new(), fired: BTreeMap::new(), probes: BTreeMap::new(), sample: None };
+    let mut r = CaseResult { violations: Vec::new(), runs: 0, fingerprints: Vec::new(), fired: BTreeMap::new(), probes: BTreeMap::new(), sample: None, digest: String::new() };
     let (base, opsv, sources, artifacts) = prepare(sb, case);
     let pd = sha(serde_json::to_string(&files_json(&case.files)).unwrap().as_bytes());
     for (oi, op) in opsv.iter().enumerate() {
@@ -426,6 +427,7 @@ fn check_case(sb: &Sandbox, opts: &Opts, idx: usize, case: &Case, per_op: usize,
         for (pi, plan) in plans.iter().enumerate() {
             let obs = execute(sb, &base, op, plan);
             r.runs += 1;
+            r.digest = sha(format!("{}{}{:?}{}", r.digest, obs.exit.class(), obs.counts, obs.syscalls).as_bytes());
             for f in &obs.fired {
                 *r.fired.entry(f.split(':').next().unwrap_or(f).to_string() + ":" + f.split(':').nth(1).unwrap_or("")).or_insert(0) += 1;
             }
@@ -501,6 +503,7 @@ pub fn run(opts: &Opts) -> i32 {
         |w| Sandbox::new(&format!("c04w{w}")).expect("sandbox"),
         |sb, i| check_case(sb, opts, i, &all[i], per_op, enumerate),
     );
+    harness::print_run_digest(&results.iter().map(|r| r.digest.clone()).collect::<Vec<_>>());
     let mut violations = Vec::new();
     for r in results {
         ev.evaluations += r.runs;
